@@ -8,6 +8,8 @@ worktree of /repo (never in /repo itself):
 Writes /verif/seeded/<seed name>/{patch.diff, demo_test.go, meta.json} and removes the worktree.
 """
 import json, os, re, shutil, subprocess, sys
+import os as _os
+VERIF_HOME = _os.environ.get("VERIF_HOME") or _os.path.dirname(_os.path.dirname(_os.path.abspath(__file__)))
 
 out, name = sys.argv[1], sys.argv[2]
 extra = sys.argv[3].split(",") if len(sys.argv) > 3 and sys.argv[3] else []
@@ -46,7 +48,7 @@ try:
     checks = {}
     for cid in [prop] + [e for e in extra if e != prop]:
         ev = dict(env, VERIF_REPO=wt, VERIF_EVIDENCE_DIR="/tmp/wt/ev", VERIF_REPLAY_DIR="/tmp/wt/rp-" + name)
-        p = subprocess.Popen(["/verif/check", cid, "quick"], env=ev, stdout=subprocess.PIPE, text=True, start_new_session=True)
+        p = subprocess.Popen([VERIF_HOME + "/check", cid, "quick"], env=ev, stdout=subprocess.PIPE, text=True, start_new_session=True)
         try:
             so, _ = p.communicate(timeout=900)
         except subprocess.TimeoutExpired:
@@ -57,7 +59,7 @@ try:
         checks[cid] = {"exit": p.returncode, "verdict": "caught" if p.returncode == 1 else ("missed" if p.returncode == 0 else "exit %s" % p.returncode), "classes": classes[:8]}
         print("  %s: %s %s" % (cid, checks[cid]["verdict"], classes[:4]))
     res["checks_quick"] = checks
-    dst = os.path.join("/verif/seeded", name)
+    dst = os.path.join(VERIF_HOME + "/seeded", name)
     os.makedirs(dst, exist_ok=True)
     shutil.copy(os.path.join(out, "patch.diff"), dst)
     shutil.copy(os.path.join(out, "demo_test.go"), dst)
